@@ -1,6 +1,7 @@
-(** C36 — parked sends and Close: the low-priority wait-forever send stays parked for ever
-    (refutation of "no send blocks for ever after close"), every other parked send can
-    return once the queue is closed (partial theorem). *)
+(** C36 — parked sends and Close: once the queue is closed every parked send can return,
+    with an error, and is then gone from the set of parked sends ("no send blocks for ever
+    after close").  Wait-forever sends of both priorities select on the topic's done
+    channel; timed sends have their timer. *)
 From Coq Require Import List NArith Bool Lia.
 From C33 Require Import C36.Model C36.ProofsBase C36.ProofsClose.
 Import ListNotations.
@@ -24,58 +25,59 @@ Proof.
   - simpl. destruct (q =? p'); [reflexivity|apply IH].
 Qed.
 
-(** *** a closed topic's low channel never shrinks and never grows *)
-Lemma aget_map_close_low cp t m :
-  t_closed (aget topic0 t m) = true ->
-  aget topic0 t (map (fun kv => (fst kv, close_topic_rec cp (snd kv))) m) = aget topic0 t m.
+(** *** the numbers of the parked sends are pairwise distinct *)
+Definition pend_nodup (s : state) : Prop := NoDup (map fst (s_pend s)).
+
+Lemma pend_get_none_notin p l : pend_get p l = None -> ~ In p (map fst l).
 Proof.
-  induction m as [|[k v] m IH]; simpl; intros H; [reflexivity|].
-  destruct (t =? k); [unfold close_topic_rec; rewrite H; reflexivity|apply IH, H].
+  induction l as [|[p' x] l IH]; simpl; [tauto|].
+  destruct (p =? p') eqn:E; [discriminate|]. apply N.eqb_neq in E.
+  intros H [Heq|Hin]; [congruence|exact (IH H Hin)].
+Qed.
+Lemma pend_del_keys p q l : In q (map fst (pend_del p l)) -> In q (map fst l).
+Proof.
+  induction l as [|[p' x] l IH]; simpl; [auto|].
+  destruct (p =? p'); simpl; intuition.
+Qed.
+Lemma pend_del_nodup p l : NoDup (map fst l) -> NoDup (map fst (pend_del p l)).
+Proof.
+  induction l as [|[p' x] l IH]; simpl; intros H; [constructor|].
+  inversion H as [|? ? Hn Hd]; subst.
+  destruct (p =? p'); simpl; [exact Hd|].
+  constructor; [intros Hin; apply Hn; eapply pend_del_keys; exact Hin|apply IH, Hd].
+Qed.
+Lemma pend_get_del_same p l : NoDup (map fst l) -> pend_get p (pend_del p l) = None.
+Proof.
+  induction l as [|[p' x] l IH]; simpl; intros H; [reflexivity|].
+  inversion H as [|? ? Hn Hd]; subst.
+  destruct (p =? p') eqn:E.
+  - apply N.eqb_eq in E; subst p'.
+    destruct (pend_get p l) eqn:G; [|reflexivity].
+    exfalso. apply Hn. apply pend_get_in in G. apply in_map_iff. exists (p, p0). auto.
+  - simpl. rewrite E. apply IH, Hd.
 Qed.
 
-Lemma closed_low_full_step s e s' t :
-  step s e = Some s' ->
-  t_closed (gt s t) = true -> fspace (lcap (s_caps s)) (t_low (gt s t)) = false ->
-  t_low (gt s' t) = t_low (gt s t) /\ s_caps s' = s_caps s.
+Lemma pend_nodup_init cp : pend_nodup (init cp).
+Proof. constructor. Qed.
+
+Lemma pend_nodup_step s e s' : pend_nodup s -> step s e = Some s' -> pend_nodup s'.
 Proof.
-  intros H Hc Hf.
-  destruct e; step_inv H; autorewrite with frame; split; auto; eqb_cases; auto.
-  all: try (unfold pre_check in *; break_match_hyp E; congruence).
-  all: try match goal with
-           | hi : bool |- context [set_chan _ ?hi _] => destruct hi; [reflexivity|]
-           end.
-  all: try (unfold pre_check, cap_of, chan_of in *; simpl in *; bool_hyps; congruence).
-  all: try (unfold close_topic_rec; rewrite Hc; reflexivity).
-  all: try (rewrite aget_map_close_low by exact Hc; reflexivity).
-  destruct (p_high p0); [reflexivity|]. unfold cap_of, chan_of in *. congruence.
+  unfold pend_nodup. intros I H.
+  destruct e; try (step_inv H; autorewrite with frame; exact I).
+  - (* EBlock *)
+    step_inv H; autorewrite with frame; simpl;
+      (constructor; [apply pend_get_none_notin; assumption|exact I]).
+  - (* EUnblock *)
+    step_inv H; autorewrite with frame; apply pend_del_nodup, I.
 Qed.
 
-Definition stuck (s : state) (p : N) (pd : pend) : Prop :=
-  pend_get p (s_pend s) = Some pd /\ p_high pd = false /\ p_timed pd = false
-  /\ t_closed (gt s (p_topic pd)) = true
-  /\ fspace (lcap (s_caps s)) (t_low (gt s (p_topic pd))) = false.
-
-Lemma stuck_step s e s' p pd : stuck s p pd -> step s e = Some s' -> stuck s' p pd.
+Lemma reachable_pend_nodup cp s : reachable cp s -> pend_nodup s.
 Proof.
-  intros (Hg & Hh & Ht & Hc & Hf) H.
-  destruct (closed_low_full_step s e s' _ H Hc Hf) as [Hl Hcp].
-  assert (Hc' := tclosed_mono _ _ _ _ H Hc).
-  unfold stuck. rewrite Hl, Hcp. repeat split; auto.
-  clear Hl Hcp Hc'.
-  destruct e; step_inv H; autorewrite with frame; auto.
-  all: try (simpl; destruct (p =? p0) eqn:Epp; [apply N.eqb_eq in Epp; subst; congruence|exact Hg]).
-  all: destruct (N.eq_dec p p0) as [->|Hn]; [|rewrite pend_get_del_other; auto];
-    rewrite Hg in E; injection E as <-; unfold cap_of, chan_of in *; rewrite ?Hh in *;
-    try congruence; try discriminate.
+  intros [tr Hr]. eapply (run_invariant pend_nodup); eauto using pend_nodup_init.
+  intros; eapply pend_nodup_step; eauto.
 Qed.
 
-Lemma stuck_forever s p pd tr s2 : stuck s p pd -> run s tr = Some s2 -> stuck s2 p pd.
-Proof.
-  intros Hs Hr. eapply (run_invariant (fun s => stuck s p pd)); eauto.
-  intros; eapply stuck_step; eauto.
-Qed.
-
-(** *** the full-strength statement and its refutation *)
+(** *** the full-strength statement *)
 Definition no_block_forever_full : Prop :=
   forall cp tr s p pd, run (init cp) tr = Some s -> s_qclosed s = true ->
     pend_get p (s_pend s) = Some pd ->
@@ -83,7 +85,8 @@ Definition no_block_forever_full : Prop :=
 
 (* subscriber 0 on topic 0 stops draining; requester 1 fills recv (1), the pump's hand (1)
    and the low channel (1), parks one more Send(msg,false) (#7); then the subscriber reads
-   one message, Client.Close of 0 runs to the end, Queue.Close. *)
+   one message, Client.Close of 0 runs to the end, Queue.Close.  (Before the repair of
+   sendLowTimeout this parked send could never return.) *)
 Definition witness_caps : caps := mkCaps 1 1 1.
 Definition witness_trace : list event :=
   [ ESub 0 0;
@@ -95,21 +98,13 @@ Definition witness_trace : list event :=
     ECloseQueue ].
 
 Lemma witness_runs :
-  exists s, run (init witness_caps) witness_trace = Some s
+  exists s s2, run (init witness_caps) witness_trace = Some s
             /\ s_qclosed s = true /\ c_closed (gc s 0) = true /\ close_done s 0 = true
-            /\ stuck s 7 (mkP 1 3 false false 0).
-Proof. eexists. split; [vm_compute; reflexivity|]. vm_compute. intuition. Qed.
-
-Lemma no_block_forever_refuted_proof : ~ no_block_forever_full.
-Proof.
-  intros F. destruct witness_runs as (s & Hr & Hq & _ & _ & Hs).
-  destruct (F _ _ _ 7 _ Hr Hq (proj1 Hs)) as (tr2 & s2 & Hr2 & Hn).
-  pose proof (stuck_forever _ _ _ _ _ Hs Hr2) as (Hg & _). congruence.
-Qed.
-
-(** *** partial: every parked send other than a low-priority wait-forever one can return
-    once the queue is closed *)
-Definition can_return (pd : pend) : bool := p_high pd || p_timed pd.
+            /\ pend_get 7 (s_pend s) = Some (mkP 1 3 false false 0)
+            /\ fspace (lcap (s_caps s)) (t_low (gt s 0)) = false
+            /\ step s (EUnblock 7 SOk) = None
+            /\ step s (EUnblock 7 SErrChan) = Some s2 /\ s_pend s2 = [].
+Proof. eexists _, _. split; [vm_compute; reflexivity|]. vm_compute. intuition. Qed.
 
 Definition tkeys (s : state) : list N := map fst (s_topics s).
 
@@ -169,15 +164,26 @@ Proof.
   intros; eapply pend_inv_step; eauto.
 Qed.
 
-Lemma no_block_forever_partial_proof :
+(** every parked send can return once the queue is closed; it returns an error and is no
+    longer parked afterwards *)
+Lemma parked_send_returns_error_proof :
   forall cp tr s p pd, run (init cp) tr = Some s -> s_qclosed s = true ->
-    pend_get p (s_pend s) = Some pd -> can_return pd = true ->
-    exists r s2, is_err r = true /\ step s (EUnblock p r) = Some s2.
+    pend_get p (s_pend s) = Some pd ->
+    exists r s2, is_err r = true /\ step s (EUnblock p r) = Some s2 /\ pend_get p (s_pend s2) = None.
 Proof.
-  intros cp tr s p pd Hr Hq Hg Hcan.
+  intros cp tr s p pd Hr Hq Hg.
+  pose proof (reachable_pend_nodup cp s (ex_intro _ tr Hr)) as Hnd.
   destruct (p_timed pd) eqn:Et.
-  - exists STimeout. simpl. rewrite Hg, Et. eauto.
-  - unfold can_return in Hcan. rewrite Et, orb_false_r in Hcan.
-    destruct (reachable_pend_inv cp s (ex_intro _ tr Hr) _ _ (pend_get_in _ _ _ Hg)) as [_ Hc].
-    exists SErrChan. simpl. rewrite Hg, Hcan, Et, (Hc Hq). simpl. eauto.
+  - exists STimeout. eexists. split; [reflexivity|]. simpl. rewrite Hg, Et. split; [reflexivity|].
+    autorewrite with frame. apply pend_get_del_same, Hnd.
+  - destruct (reachable_pend_inv cp s (ex_intro _ tr Hr) _ _ (pend_get_in _ _ _ Hg)) as [_ Hc].
+    exists SErrChan. eexists. split; [reflexivity|]. simpl. rewrite Hg, Et, (Hc Hq). simpl. split; [reflexivity|].
+    autorewrite with frame. apply pend_get_del_same, Hnd.
+Qed.
+
+Lemma no_block_forever_proof : no_block_forever_full.
+Proof.
+  intros cp tr s p pd Hr Hq Hg.
+  destruct (parked_send_returns_error_proof cp tr s p pd Hr Hq Hg) as (r & s2 & _ & Hs & Hn).
+  exists [EUnblock p r], s2. split; [cbn [run]; rewrite Hs; reflexivity|exact Hn].
 Qed.
